@@ -75,6 +75,10 @@ type Node struct {
 	untrustedLock   sync.Mutex
 	blockLock       sync.Mutex
 
+	// txStateLock makes a fetch, modify, save and notify of a stored tx state atomic between the
+	// tx delay checker, the unconfirmed tx processor and the block processor.
+	txStateLock sync.Mutex
+
 	txFetcher     TxFetcher
 	outputFetcher OutputFetcher
 
@@ -996,33 +1000,42 @@ func (node *Node) checkTxDelays(ctx context.Context) {
 		}
 
 		for _, txid := range txids {
-			txState, err := internalStorage.FetchTxState(ctx, node.store, txid)
-			if err != nil {
-				logger.Error(ctx, "SpyNodeFailed fetch tx state : %s", err)
-				continue
-			}
-
-			if txState.State.UnSafe || txState.State.Cancelled {
-				continue
-			}
-			verifhook.At(ctx, "node.safe.fetched")
-
-			txState.State.Safe = true
-
-			if err := internalStorage.SaveTxState(ctx, node.store, txState); err != nil {
-				logger.Error(ctx, "SpyNodeFailed save tx state : %s", err)
-				continue
-			}
-
-			// Send update
-			update := &client.TxUpdate{
-				TxID:  txid,
-				State: txState.State,
-			}
-			for _, handler := range node.handlers {
-				handler.HandleTxUpdate(ctx, update)
-			}
+			node.markTxSafe(ctx, txid)
 		}
+	}
+}
+
+// markTxSafe updates the stored state of a tx to safe and notifies the handlers, unless the tx has
+// been marked unsafe or cancelled or has been confirmed in the meantime.
+func (node *Node) markTxSafe(ctx context.Context, txid bitcoin.Hash32) {
+	node.txStateLock.Lock()
+	defer node.txStateLock.Unlock()
+
+	txState, err := internalStorage.FetchTxState(ctx, node.store, txid)
+	if err != nil {
+		logger.Error(ctx, "SpyNodeFailed fetch tx state : %s", err)
+		return
+	}
+
+	if txState.State.UnSafe || txState.State.Cancelled {
+		return
+	}
+	verifhook.At(ctx, "node.safe.fetched")
+
+	txState.State.Safe = true
+
+	if err := internalStorage.SaveTxState(ctx, node.store, txState); err != nil {
+		logger.Error(ctx, "SpyNodeFailed save tx state : %s", err)
+		return
+	}
+
+	// Send update
+	update := &client.TxUpdate{
+		TxID:  txid,
+		State: txState.State,
+	}
+	for _, handler := range node.handlers {
+		handler.HandleTxUpdate(ctx, update)
 	}
 }
 
